@@ -68,4 +68,17 @@ SCENARIOS = {
         "unrelated": {"target.py": ["def weight(parcel):\n    return parcel.kilograms_in_target\n", "def invoice(row):\n    return row.tariff_in_target\n",
                                     "def weight(parcel):\n    return parcel.w2\n\ndef invoice(row):\n    return row.t2\n"]},
     },
+    # star re-exports two levels deep: lib/__init__ stars lib.core, whose __init__ stars the modules that define the callees
+    "star_reexport_two_levels": {
+        "files": {
+            "target.py": "from lib import scale, label\n\ndef use_scale(item):\n    return scale(item)\n\ndef use_label(item):\n    return label(item)\n",
+            "lib/__init__.py": "from .core import *\n",
+            "lib/core/__init__.py": "from .ops import *\nfrom .fmt import *\n",
+            "lib/core/ops.py": "def scale(i):\n    return i.factor\n",
+            "lib/core/fmt.py": "def label(i):\n    return i.title\n",
+        },
+        "expect": {"use_scale": {"gets": ["item", "item.factor"], "sets": [], "dels": []},
+                   "use_label": {"gets": ["item", "item.title"], "sets": [], "dels": []}},
+        "reorder": ["target.py"],
+    },
 }
